@@ -155,7 +155,13 @@ package keeper
 // After the collection loop every collected (bonded, oracle-active) validator that has a stored price list is
 // represented in the price table: no validator's fresh prices are dropped because another validator has none.
 //@ spec vplOf(s Store, a Addr) []types.ValidatorPrice = dec(types.ValidatorPriceList, s[types.ValidatorPriceListStoreKey(a)]).ValidatorPrices
+// call history: the price calculation runs once in EVERY end-block, update blocks included (see feeds.EndBlocker)
+//@ ghost Count_CalculatePrices Int
 //@ func (k Keeper) CalculatePrices
+//@ counts *
+// C15: the window in which a freshly (re)activated validator, or any validator after a feed-list update, is not yet
+// expected to have a price is the GRACE PERIOD parameter (not the cooldown, which limits how often prices may be sent)
+//@ assert after gracePeriod: gracePeriod == feedsParams(Store_feeds).GracePeriod
 //@ modifies Store_feeds, Other
 // C02: price aggregation in the end-blocker never fails (the stored quorum string parses: validated parameters)
 //@ requires ext("LegacyNewDecFromStr#1", feedsParams(Store_feeds).PriceQuorum) == nil
@@ -255,3 +261,12 @@ package keeper
 //@ writers SignalTotalPowerStoreKey: Keeper.SetSignalTotalPower, Keeper.deleteSignalTotalPower
 //@ writers ValidatorPriceListStoreKey: Keeper.SetValidatorPriceList
 //@ writers VoteStoreKey: Keeper.DeleteVote, Keeper.SetVote
+
+// ---- read-only list getters (iterator + decode loops): results not modelled, no state written -------------------------
+// (so that a caller which uses one of them stays analysable: the list is an arbitrary well-typed value)
+//@ func (k Keeper) GetAllPrices
+//@ trusted
+//@ func (k Keeper) GetPrices
+//@ trusted
+//@ func (k Keeper) GetVotes
+//@ trusted
